@@ -201,52 +201,13 @@ def x1_load_save(ctx):
 
 
 # ----------------------------------------------------------------------- C04-A1
-def _writer_type_fields(ctx):
-    """In export_attribute: how to_string()/byte_size() are rendered: (quoted?, line index) per role."""
-    fn = ctx.repo.func(GEO, "export_attribute")
-    b = sym.Bindings(fn)
-    roles = {}
-    header = None
-    for c in au.calls(fn):
-        if au.call_tail(c) == "write" and len(c.args) == 1:
-            parts = cc.flatten(c.args[0], b, c)
-            if parts and parts[0][0] == "lit" and parts[0][1].startswith("[ATTR]"):
-                header = (c, parts)
-                break
-    if header is None:
-        return fn, None, None
-    c, parts = header
-    line = 0
-    for i, p in enumerate(parts):
-        if p[0] == "lit":
-            line += p[1].count("\n")
-            continue
-        if p[0] != "leaf":
-            continue
-        e = p[1].expr
-        prev = parts[i - 1][1] if i and parts[i - 1][0] == "lit" else ""
-        nxt = parts[i + 1][1] if i + 1 < len(parts) and parts[i + 1][0] == "lit" else ""
-        quoted = prev.endswith('"') and nxt.startswith('"')
-        role = None
-        if isinstance(e, ast.Call) and au.call_tail(e) in ("to_string", "byte_size"):
-            role = au.call_tail(e)
-        elif isinstance(e, ast.Attribute) and e.attr == "elemsize":
-            role = "elemsize"
-        elif isinstance(e, ast.Name) and e.id in au.params(fn):
-            role = "param:" + e.id
-        if role:
-            roles[role] = (line, quoted, p[1])
-    n_lines = sum(p[1].count("\n") for p in parts if p[0] == "lit")
-    return fn, roles, n_lines
-
-
 def a1_type_table(ctx):
     repo = ctx.repo
     cls = repo.cls(ATTR, "_BaseAttribute.Type")
     fold = cc.Folder(cls)
     members = fold.members
     ctx.require_count("C04-A1 attribute types", len(members), 5)
-    wfn, roles, n_lines = _writer_type_fields(ctx)
+    wfn, roles, n_lines, _hdr = ff.writer_type_fields(repo)
     wsite = ctx.site(GEO, wfn)
     if not roles or "to_string" not in roles or "byte_size" not in roles:
         ctx.fail("C04-A1", wsite, "export_attribute: [ATTR] header with type name and byte size not found",
